@@ -1347,6 +1347,20 @@ def check_oracles(w):
             mc, ms = pc.wrap2, ps.wrap1
             if mc.channel != ms.channel:
                 continue
+            reg = {}
+            for sd, mw in (("c", mc), ("s", ms)):
+                cb = w.mux[sd].channels.get(mw.channel)
+                reg[sd] = cb is not None and getattr(cb, "__self__", None) is mw
+            if reg["c"] != reg["s"]:
+                # (model: both wrappers of a flow are registered, or neither, once nothing is on the way —
+                # Stream_quiet / Stream_assert: the peer frees an identifier before it can see its re-use)
+                f160r = any(w.blocked[sd] and w.mux[sd].outbuf and
+                            all(c == 0x4204 for b in w.mux[sd].outbuf for _, c, _ in decode_frames(bytes(b))) for sd in ("c", "s"))
+                out["C06"].append(("quiescent, yet one end has released a flow's identifier while the other end still has the "
+                                   "flow registered under it and nothing is on the way that would release it: the next "
+                                   "connection given that identifier reaches a peer that takes it for the old flow",
+                                   {"flow": f, "identifier": mc.channel, "registered_at_client": reg["c"],
+                                    "registered_at_server": reg["s"], "finding_id": "F160" if f160r else None}))
             if bool(mc.shut_write) != bool(ms.shut_read) or bool(mc.shut_read) != bool(ms.shut_write):
                 # (the consequence of F160 when an end sleeps on its queued STOP_SENDING for good)
                 f160 = any(w.blocked[sd] and w.mux[sd].outbuf and
